@@ -1020,22 +1020,75 @@ func ruleStdioWiring(c *Ctx) {
 	// 5. client Run: tag constant -> writer parameter
 	if f := p.Fn("grpcStdioClient.Run"); f != nil {
 		info := f.Pkg.TypesInfo
-		ast.Inspect(f.Body, func(x ast.Node) bool {
-			cc, ok := x.(*ast.CaseClause)
-			if !ok || len(cc.List) != 1 {
-				return true
-			}
-			o := objOfExpr(info, cc.List[0])
-			if o == nil || !strings.Contains(o.Name(), "StdioData_") {
-				return true
-			}
-			for _, st := range cc.Body {
-				if as, ok := st.(*ast.AssignStmt); ok && len(as.Rhs) == 1 {
-					edge(f, as, "wire tag -> host writer", streamLabel(o.Name()), p.exprLabel(f, as.Rhs[0]))
+		n0 := n
+		wlabel := map[types.Object]string{}
+		for _, fd := range f.Type.Params.List {
+			for _, nm := range fd.Names {
+				if v, ok := info.Defs[nm].(*types.Var); ok && v.Type().String() == "io.Writer" {
+					wlabel[v] = []string{"out", "err", "", ""}[min(len(wlabel), 3)]
 				}
+			}
+		}
+		// table form: map[Channel]io.Writer{STDOUT: stdout, STDERR: stderr}
+		ast.Inspect(f.Body, func(x ast.Node) bool {
+			kv, ok := x.(*ast.KeyValueExpr)
+			if !ok {
+				return true
+			}
+			if o := objOfExpr(info, kv.Key); o != nil && strings.Contains(o.Name(), "StdioData_") {
+				edge(f, kv, "wire tag -> host writer", streamLabel(o.Name()), wlabel[identObj(info, ast.Unparen(kv.Value))])
 			}
 			return true
 		})
+		// switch/if form: inside the region selected by a channel tag (a case
+		// clause, or the then-branch of `ch == TAG`) every use of one of Run's
+		// writer parameters is a link; the parameters are labelled by position
+		// (Run(stdout, stderr): the callers are checked by the sinks clause)
+		tagOf := func(x ast.Node) (string, []ast.Stmt) {
+			switch y := x.(type) {
+			case *ast.CaseClause:
+				if len(y.List) == 1 {
+					if o := objOfExpr(info, y.List[0]); o != nil && strings.Contains(o.Name(), "StdioData_") {
+						return streamLabel(o.Name()), y.Body
+					}
+				}
+			case *ast.IfStmt:
+				if be, ok := ast.Unparen(y.Cond).(*ast.BinaryExpr); ok && be.Op == token.EQL {
+					for _, side := range []ast.Expr{be.X, be.Y} {
+						if o, isC := objOfExpr(info, side).(*types.Const); isC && strings.Contains(o.Name(), "StdioData_") {
+							return streamLabel(o.Name()), y.Body.List
+						}
+					}
+				}
+			}
+			return "", nil
+		}
+		ast.Inspect(f.Body, func(x ast.Node) bool {
+			tag, body := tagOf(x)
+			if tag == "" {
+				return true
+			}
+			for _, st := range body {
+				ast.Inspect(st, func(y ast.Node) bool {
+					if y == nil {
+						return false
+					}
+					if t2, _ := tagOf(y); t2 != "" {
+						return false // a nested region is a region of its own
+					}
+					if id, ok := y.(*ast.Ident); ok {
+						if l, isW := wlabel[info.Uses[id]]; isW {
+							edge(f, id, "wire tag -> host writer", tag, l)
+						}
+					}
+					return true
+				})
+			}
+			return true
+		})
+		if n-n0 < 2 {
+			c.R.Undecided("R-TABLE/stdio", f.Name, "wire tag -> host writer", fmt.Sprintf("only %d links from a StdioData channel tag to a writer found in Run, 2 expected", n-n0))
+		}
 	}
 	// 6. net/rpc: copyStream(name, dst, src) on both ends and the client literal
 	for _, fn := range []string{"RPCServer.ServeConn", "RPCClient.SyncStreams"} {
@@ -1531,7 +1584,16 @@ func descendingCmp(info *types.Info, ftype *ast.FuncType, body *ast.BlockStmt, l
 	if fl.Body == nil || len(fl.Body.List) != 1 || fl.Type.Params == nil {
 		return false
 	}
-	rs, ok := fl.Body.List[0].(*ast.ReturnStmt)
+	only := fl.Body.List[0]
+	for {
+		// blocks left behind by inlining a named comparator
+		if b, isB := only.(*ast.BlockStmt); isB && len(b.List) == 1 {
+			only = b.List[0]
+			continue
+		}
+		break
+	}
+	rs, ok := only.(*ast.ReturnStmt)
 	if !ok || len(rs.Results) != 1 {
 		return false
 	}
